@@ -4,7 +4,7 @@ import os
 import re
 import shutil
 
-from . import wire
+from . import core, wire
 
 
 class GenCase:
@@ -32,7 +32,7 @@ class GenCase:
         d = os.path.join(self.dir, where) if where else self.dir
         os.makedirs(d, exist_ok=True)
         path = os.path.join(d, name)
-        os.symlink(self.ctx.paths["fakegen"], path)
+        core.link_tool(self.ctx.paths["fakegen"], path)
         if reply is not None:
             with open(os.path.join(self.log, name + ".reply"), "wb") as f:
                 f.write(reply)
